@@ -554,7 +554,7 @@ func TestVerifC10(t *testing.T) {
 	}
 	depth := 3
 	if w.Thorough() {
-		depth = 6
+		depth = 5
 	}
 	// shard by first operation
 	for i, first := range c10Ops {
